@@ -566,7 +566,14 @@ class Check:
               "coverage": cov, "assumptions": self.assumptions, "wall_s": round(time.time() - self.t0, 2),
               "violations": len(self.violations)}
         ensure_dirs()
-        with open(os.path.join(ROOT, "evidence", f"{self.prop}.json"), "w") as f:
+        # the evidence file describes a run of the check on /repo itself: runs against a scratch copy
+        # (VERIF_REPO), replays and development runs write theirs under work/ instead
+        edir = os.path.join(ROOT, "evidence")
+        if (os.path.realpath(REPO) != "/repo" or os.environ.get("VERIF_DEBUG_SKIP_MC")
+                or os.environ.get("VERIF_NO_EVIDENCE") or getattr(self, "is_replay", False)):
+            edir = os.path.join(WORK, "evidence-scratch")
+            os.makedirs(edir, exist_ok=True)
+        with open(os.path.join(edir, f"{self.prop}.json"), "w") as f:
             json.dump(ev, f, indent=1, ensure_ascii=True)
         log(f"[{self.prop}] tier={self.tier} seed={self.seed}: {self.states} states, {self.traces} traces "
             f"({self.events} events) validated, {len(self.violations)} violation(s), "
